@@ -6,7 +6,7 @@ tier="${1:-quick}"; shift
 seeds="${*:-0}"
 rc_all=0
 for seed in $seeds; do
-  for i in 01 02 03 04 05 06 07 08 09 10 11 12 13 14 15 16 17; do
+  for i in 01 02 03 04 05 06 07 08 09 10 11 12 13 14 15 16 17 18; do
     s=$(date +%s)
     out=$(VERIF_SEED=$seed "$HERE/check" C$i --tier "$tier" 2>&1); rc=$?
     e=$(date +%s)
